@@ -30,6 +30,10 @@ type Expect struct {
 	Class   string `json:",omitempty"` // overrides the oracle failure class when missed
 	NewElem bool   `json:",omitempty"` // the located element is new (did not exist before)
 	About   string `json:",omitempty"` // the deleted element ("msg:X" / "enum:X" / "svc:X") when the locator cannot tell
+	// Absent: the rule must NOT report at this location (the documentation exempts the edit:
+	// every name / the number is reserved, the number still has a value).  Only used where the
+	// planted edit is the only edit the rule could be about at that location.
+	Absent bool `json:",omitempty"`
 }
 
 // ObservePrefix: an Expect.Class with this prefix is only counted when the rule is missed.
